@@ -525,8 +525,15 @@ fn w_regularisation(ctx: &mut Ctx) {
             }
         }
         let mut planted = 0;
+        let (eps, delta) = *rng.choose(&[(1e-12, 1e-7), (1e-13, 2e-7), (1e-6, 1e-3), (0.0, 1e-7), (0.5, 1e-3)]);
         for j in 0..n {
             let r = rng.unif();
+            if r > 0.9 {
+                // a pivot sitting exactly ON the threshold: "below eps" is a strict comparison
+                d.set(j, j, signs[j] as f64 * eps);
+                planted += 1;
+                continue;
+            }
             if r < 0.15 {
                 d.set(j, j, -(signs[j] as f64) * 4.0); // wrong sign
                 planted += 1;
@@ -543,7 +550,6 @@ fn w_regularisation(ctx: &mut Ctx) {
         let a = d.to_csc_pattern(&pat);
         let perm = if rng.bool(0.8) { Some(rng.perm(n)) } else { None };
         let reg = rng.bool(0.8);
-        let (eps, delta) = *rng.choose(&[(1e-12, 1e-7), (1e-13, 2e-7), (1e-6, 1e-3)]);
         let inst = Inst { n, a, signs, perm, reg, eps, delta };
         let f = check_instance(ctx, wl, case, &inst, &mut rng);
         if let Some(f) = f {
